@@ -1,0 +1,33 @@
+//! Verification hook (feature `verif_trace`): records, per thread, the source reads and the
+//! span updates issued by generated lexers. Additive and off by default.
+use std::cell::RefCell;
+use std::vec::Vec;
+
+/// One observable step of a lexer.
+#[derive(Clone, Copy, Debug, PartialEq, Eq)]
+pub enum Event {
+    /// `Iterator::next` was called; payload is the position the attempt starts at.
+    Next(usize),
+    /// `LexerInternal::read::<Chunk>(offset)`: (offset, Chunk::SIZE, returned Some).
+    Read(usize, usize, bool),
+    /// `LexerInternal::trivia`; payload is the new token start.
+    Trivia(usize),
+    /// `LexerInternal::end(offset)`.
+    End(usize),
+    /// `LexerInternal::end_to_boundary(offset)`: (argument, resulting token end).
+    EndToBoundary(usize, usize),
+}
+
+thread_local! {
+    static TRACE: RefCell<Vec<Event>> = const { RefCell::new(Vec::new()) };
+}
+
+/// Append an event to this thread's trace.
+pub fn push(e: Event) {
+    TRACE.with(|t| t.borrow_mut().push(e));
+}
+
+/// Take (and clear) this thread's trace.
+pub fn take() -> Vec<Event> {
+    TRACE.with(|t| core::mem::take(&mut *t.borrow_mut()))
+}
